@@ -10,6 +10,10 @@
  * a private temp dir, 90 = a path in a directory that does not exist, 91 = /dev/full):
  *   new <o> [<file> <mode>] | del <o> | open <o> <file> <mode> | close <o> | stop <o>
  *   with <o> <n> | withx <o> <n>          the next n ops are the body of `with(f in obj)`; withx leaves it by an exception
+ *   withv <o> <leave> <n>                 the same with the way out spelled: fall | cont | brk | throw
+ *   withnew <o> <file> <mode> <leave> <n> `with (f in new(File, $S(path), $S(mode)))`: the source expression constructs the File (slot o free)
+ *   withnew0 <o> <leave> <n>              `with (f in new(File))`
+ *   withcall <o> <file> <mode> <leave> <n>  `with (f in fn(path, mode))`, fn constructs the File and counts its calls
  *   seek <o> <off> <set|cur|end|bad> | tell <o> | flush <o> | eof <o>
  *   read <o> <size> | write <o> <len> <seed> | writehex <o> <hex|-> | print <o> <int> | scan <o>
  *   dump <file> | rm <file>
@@ -27,7 +31,10 @@
  *   - stdio is never called with NULL or a dead handle (sig=stale-handle);
  *   - after every op the set of live handles is exactly the set of handles held by existing File objects
  *     (sig=handle-leak, stale-handle-kept); close/stop/del/with-exit leave the object closed (sig=not-closed);
- *   - at the end (everything deleted/closed) successful fopens == fcloses (sig=close-count).
+ *   - at the end (everything deleted/closed) successful fopens == fcloses (sig=close-count);
+ *   - with blocks: the source expression is evaluated exactly once (sig=with-reeval), its init clause makes exactly the fopen the
+ *     expression asks for (sig=with-init-calls), leaving through the step clause makes exactly one stdio call, fclose of the handle
+ *     the loop variable's File held when the body ended (sig=with-exit-calls), break / exception make none.
  */
 #include "common.h"
 #include <errno.h>
@@ -302,6 +309,133 @@ static void do_close_like(int o, const char* op, int which) {   /* 0 sclose, 1 s
   emit(o, op, "");
 }
 
+/* ------------------------------------------------------------------------------------------ with blocks
+ * `with (f in S) { body }` through the real macro, for source expressions S with and without side effects:
+ *   WK_VAR   with (f in objs[o])                              a variable
+ *   WK_NEW   with (f in new(File, $S(path), $S(mode)))        the idiom of the documentation: S constructs and opens
+ *   WK_NEW0  with (f in new(File))                            S constructs a closed File
+ *   WK_CALL  with (f in src_call(depth, path, mode))          a function that constructs the File and counts its calls
+ * and for the four ways a body can end: falling off its end, `continue` (both reach the step clause of the for loop the
+ * macro expands to), `break` and an exception (both leave the loop without it).
+ * Oracle, independent of the model: S is evaluated exactly once (call counter; no fopen attempt outside the init
+ * clause); the init clause makes exactly the fopen attempt S asks for; the step clause makes exactly one stdio call,
+ * fclose of the handle the loop variable's File held when the body ended (or none and IOError when it held none), and
+ * leaves that File closed; break / exception make no call; handle accounting and the twin file as for every other op. */
+enum { WK_VAR = 0, WK_NEW = 1, WK_NEW0 = 2, WK_CALL = 3 };
+enum { LV_FALL = 0, LV_CONT = 1, LV_BRK = 2, LV_THROW = 3 };
+#define MAXDEPTH 16
+static int with_depth = 0;
+static int src_evals[MAXDEPTH + 2];
+static var src_call(int d, const char* path, const char* mode) { src_evals[d]++; return new(File, $S(path), $S(mode)); }
+
+static int count_calls(const char* fn) {          /* how many recorded calls of this op are `fn:…` */
+  int n = 0; size_t l = strlen(fn);
+  for (const char* q = callbuf; *q; ) {
+    if (!strncmp(q, fn, l) && q[l] == ':') n++;
+    const char* c = strchr(q, ','); if (!c) break; q = c + 1;
+  }
+  return n;
+}
+
+/* the body of every variant (a macro: `break` / `continue` must sit inside the for loop `with` expands to) */
+#define WITH_BODY(BIND) { \
+    trk = 0; entered = 1; \
+    if (BIND) objs[o] = f; \
+    with_entered(o, wk, k, mode, d); \
+    with_depth++; in_with[o]++; \
+    run_range(lines, i + 1, end); \
+    with_depth--; in_with[o]--; \
+    if (leave == LV_THROW) throw(ValueError, "leaving the with block"); \
+    begin_op(); cur_line = i + 1; \
+    if (leave == LV_BRK) break; \
+    hid = (raw(o) && live_index(raw(o)) >= 0) ? live_id[live_index(raw(o))] : 0; \
+    trk = 1; \
+    if (leave == LV_CONT) continue; \
+  }
+
+static void with_entered(int o, int wk, int k, const char* mode, int d) {
+  r_exc = NULL;
+  if (wk == WK_NEW || wk == WK_CALL) mirror_open(o, k, mode, "with-enter", 0);
+  int want_fopen = (wk == WK_NEW || wk == WK_CALL) ? 1 : 0;
+  if (ncalls != want_fopen || count_calls("fopen") != want_fopen)
+    X("sig=with-init-calls line=%zu what=the init clause of with made the stdio calls (%s), expected %s", cur_line, ncalls ? callbuf : "-", want_fopen ? "exactly one fopen" : "none");
+  if (wk == WK_CALL && src_evals[d] != 1)
+    X("sig=with-reeval line=%zu what=the source expression of with was evaluated %d times before the body", cur_line, src_evals[d]);
+  emit(o, "with-enter", "");
+}
+
+static void exec_with(char** lines, size_t* ip, size_t hi, size_t i, int o, int wk, const char* op, char** tok, int nt) {
+  /* with <o> <n> | withx <o> <n> | withv <o> <leave> <n> | withnew0 <o> <leave> <n> | withnew/withcall <o> <file> <mode> <leave> <n> */
+  const char* lvs = NULL; const char* ns = NULL; const char* mode = ""; long kl = -1; char* e;
+  if (!strcmp(op, "with") || !strcmp(op, "withx")) { if (nt != 3) { O("bad-op"); return; } lvs = !strcmp(op, "with") ? "fall" : "throw"; ns = tok[2]; }
+  else if (wk == WK_VAR || wk == WK_NEW0) { if (nt != 4) { O("bad-op"); return; } lvs = tok[2]; ns = tok[3]; }
+  else {
+    if (nt != 6) { O("bad-op"); return; }
+    kl = strtol(tok[2], &e, 10);
+    if (*e || !file_ok((int)kl) || !mode_ok(tok[3])) { O("bad-op"); return; }
+    mode = tok[3]; lvs = tok[4]; ns = tok[5];
+  }
+  int leave = !strcmp(lvs, "fall") ? LV_FALL : !strcmp(lvs, "cont") ? LV_CONT : !strcmp(lvs, "brk") ? LV_BRK : !strcmp(lvs, "throw") ? LV_THROW : -1;
+  long n = strtol(ns, &e, 10);
+  if (leave < 0 || *e || n < 0 || ns[0] == '-' || ns[0] == '+') { O("bad-op"); return; }
+  if (with_depth > MAXDEPTH) { O("bad-op"); return; }
+  int k = (int)kl;
+  if (wk == WK_NEW || wk == WK_CALL) {
+    if (busy(k, o)) { O("%s busy", op); return; }
+    if (k == F_FULL && !m_full_ok(mode)) { O("%s unsup", op); return; }
+  }
+  size_t end = i + 1 + (size_t)n; if (end > hi || end < i) end = hi;
+  char p[400]; p[0] = 0; if (wk == WK_NEW || wk == WK_CALL) path_of(k, 0, p, sizeof p);
+  int d = with_depth;
+  volatile int entered = 0; volatile int hid = 0;
+  var wexc = NULL;
+  src_evals[d] = 0;
+  cur_line = i + 1;
+  begin_op(); trk = 1;
+  /* the real macro: init clause, body, step clause */
+  switch (wk) {
+    case WK_VAR:  V_TRY(wexc, with (f in objs[o]) WITH_BODY(0)); break;
+    case WK_NEW:  V_TRY(wexc, with (f in new(File, $S(p), $S(mode))) WITH_BODY(1)); break;
+    case WK_NEW0: V_TRY(wexc, with (f in new(File)) WITH_BODY(1)); break;
+    default:      V_TRY(wexc, with (f in src_call(d, p, mode)) WITH_BODY(1)); break;
+  }
+  trk = 0;
+  cur_line = i + 1;
+  r_exc = wexc;
+  *ip = end;
+  if (!entered) {
+    /* the init clause threw (the constructor could not open the file): the loop was never entered, nothing is bound */
+    if (wk == WK_NEW || wk == WK_CALL) { mirror_open(o, k, mode, "with-enter", 0); if (bk[o].twin) twin_close(o); }
+    if (!r_exc) X("sig=with-not-entered line=%zu what=the with block was skipped although its init clause raised nothing", cur_line);
+    if (wk == WK_CALL && src_evals[d] != 1) X("sig=with-reeval line=%zu what=the source expression of with was evaluated %d times", cur_line, src_evals[d]);
+    emit(o, "with-enter", "");
+    return;
+  }
+  if (wk == WK_CALL && src_evals[d] != 1)
+    X("sig=with-reeval line=%zu what=the source expression of with was evaluated %d times", cur_line, src_evals[d]);
+  if (leave == LV_THROW) {
+    calllen = 0; callbuf[0] = 0; ncalls = 0;
+    emit(o, "with-abort", "");
+    return;
+  }
+  if (leave == LV_BRK) {
+    if (r_exc || ncalls) X("sig=with-exit-calls line=%zu what=break out of a with block raised %s and made the stdio calls (%s)", cur_line, v_exc_name(r_exc), ncalls ? callbuf : "-");
+    emit(o, "with-break", "");
+    return;
+  }
+  /* the step clause ran.  Was the File open when it ran?  the twin says so */
+  int was_open = bk[o].file >= 0;
+  if (!refused_if_closed(o, "with-exit", was_open)) {
+    int rc = twin_close(o);
+    expect_exc("with-exit", rc != 0 ? IOError : NULL);
+    char want[32]; snprintf(want, sizeof want, "fclose:%d", (int)hid);
+    if (strcmp(callbuf, want) != 0)
+      X("sig=with-exit-calls line=%zu what=leaving the with block made the stdio calls (%s), expected exactly %s: the one fclose of the handle the body used", cur_line, ncalls ? callbuf : "-", want);
+  }
+  must_be_closed(o, "with-exit");
+  emit(o, "with-exit", "");
+}
+
 static void exec_op(char** lines, size_t* ip, size_t hi) {
   size_t i = *ip; *ip = i + 1;
   cur_line = i + 1;
@@ -361,6 +495,11 @@ static void exec_op(char** lines, size_t* ip, size_t hi) {
     emit(o, "new", "");
     return;
   }
+  if (!strcmp(op, "withnew") || !strcmp(op, "withnew0") || !strcmp(op, "withcall")) {
+    if (o < NSTACK || objs[o]) { O("bad-op"); return; }
+    exec_with(lines, ip, hi, i, o, !strcmp(op, "withnew") ? WK_NEW : !strcmp(op, "withnew0") ? WK_NEW0 : WK_CALL, op, tok, nt);
+    return;
+  }
   if (!objs[o]) { O("bad-op"); return; }
 
   if (!strcmp(op, "del")) {
@@ -390,40 +529,7 @@ static void exec_op(char** lines, size_t* ip, size_t hi) {
   }
   if (!strcmp(op, "close")) { if (nt != 2) { O("bad-op"); return; } do_close_like(o, "close", 0); return; }
   if (!strcmp(op, "stop")) { if (nt != 2) { O("bad-op"); return; } do_close_like(o, "stop", 1); return; }
-  if (!strcmp(op, "with") || !strcmp(op, "withx")) {
-    if (nt != 3) { O("bad-op"); return; }
-    long n = strtol(tok[2], &e, 10);
-    if (*e || n < 0) { O("bad-op"); return; }
-    int leave = !strcmp(op, "withx");
-    size_t end = i + 1 + (size_t)n; if (end > hi) end = hi;
-    static int depth = 0;
-    if (depth > 16) { O("bad-op"); return; }
-    begin_op(); emit(o, "with-enter", "");
-    var wexc = NULL;
-    depth++; in_with[o]++;
-    /* the real macro: start_in, body, stop_in */
-    V_TRY(wexc, with (f in objs[o]) { run_range(lines, i + 1, end); if (leave) throw(ValueError, "leaving the with block"); begin_op(); cur_line = i + 1; trk = 1; });
-    trk = 0;
-    depth--; in_with[o]--;
-    cur_line = i + 1;
-    /* the calls of stop_in were recorded after the body's last begin_op() */
-    r_exc = wexc;
-    if (leave) {
-      calllen = 0; callbuf[0] = 0; ncalls = 0;
-      emit(o, "with-abort", "");
-    } else {
-      /* was the File open when stop_in ran?  twin says so */
-      int was_open = bk[o].file >= 0;
-      if (!refused_if_closed(o, "with-exit", was_open)) {
-        int rc = twin_close(o);
-        expect_exc("with-exit", rc != 0 ? IOError : NULL);
-      }
-      must_be_closed(o, "with-exit");
-      emit(o, "with-exit", "");
-    }
-    *ip = end;
-    return;
-  }
+  if (!strcmp(op, "with") || !strcmp(op, "withx") || !strcmp(op, "withv")) { exec_with(lines, ip, hi, i, o, WK_VAR, op, tok, nt); return; }
   if (!strcmp(op, "seek")) {
     if (nt != 4) { O("bad-op"); return; }
     long long off = strtoll(tok[2], &e, 10); if (*e) { O("bad-op"); return; }
